@@ -81,6 +81,21 @@ def build_store(case, store, zarr_format):
 
     write_arrays(store, node_ids, props(case["node_props"], n), edge_ids, props(case["edge_props"], e),
                  GeffMetadata(directed=True, node_props_metadata={}, edge_props_metadata={}), zarr_format=zarr_format)
+    if case.get("vlen_str"):
+        # geff's writer stores fixed-width <U arrays; the specification prescribes variable-length UTF8
+        # strings (zarr v3 `string`, v2 vlen-utf8): re-create the string `values` arrays that way with the
+        # raw zarr API (the reader then goes through its StringDType branch)
+        import zarr
+
+        root = zarr.open_group(store, mode="a")
+        for group, ps, cnt in (("nodes", case["node_props"], n), ("edges", case["edge_props"], e)):
+            for p in ps:
+                if p["dtype"] == "str":
+                    path = f"{group}/props/{p['name']}/values"
+                    values = np_values(p, cnt).astype(np.dtypes.StringDType())
+                    del root[path]
+                    arr = root.create_array(path, shape=values.shape, dtype=values.dtype)
+                    arr[...] = values
 
 
 def rows_of(p, n):
@@ -180,16 +195,46 @@ def _read_csv(path):
 
 
 def csv_obs(case, obs):
-    """geff_to_csv / `geff convert-to-csv` on an on-disk store + overwrite semantics"""
-    from geff.convert import geff_to_csv
+    """geff_to_csv / `geff convert-to-csv` on an on-disk store: CSV text parsed back, then SEQUENCES of
+    exports onto the same output (existing files, overwrite).  The output is given as an absolute path,
+    as `~/…` ($HOME pointed at the temporary directory) or relative to the working directory, as str or
+    Path, with or without a suffix; files are observed at their real location."""
+    import os
 
     r: dict = {}
     with tempfile.TemporaryDirectory(prefix="verif-c17-") as td:
-        root = Path(td)
+        root = Path(td).resolve()
+        old_home, old_cwd = os.environ.get("HOME"), os.getcwd()
+        try:
+            os.environ["HOME"] = str(root)
+            os.chdir(root)
+            return _csv_obs(case, root, r)
+        finally:
+            os.chdir(old_cwd)
+            if old_home is None:
+                os.environ.pop("HOME", None)
+            else:
+                os.environ["HOME"] = old_home
+
+
+def _csv_obs(case, root, r):
+    from geff.convert import geff_to_csv
+
+    if True:
         spath = root / "g.zarr" / "tracks.geff"
         build_store(case, spath, case.get("zarr_format", 2))
-        outarg = root / case.get("out_arg", "out.csv")
-        base = Path(outarg).with_suffix("")
+        name = case.get("out_arg", "out.csv")
+        form = case.get("out_form", "abs")
+        if form == "tilde":
+            (root / "tables").mkdir()
+            arg, real = f"~/tables/{name}", root / "tables" / name
+        elif form == "rel":
+            (root / "sub").mkdir()
+            arg, real = f"sub/{name}", root / "sub" / name
+        else:
+            arg, real = str(root / name), root / name
+        outarg = Path(arg) if case.get("out_type", "path") == "path" else arg
+        base = real.with_suffix("")
         npth, epth = Path(f"{base}-nodes.csv"), Path(f"{base}-edges.csv")
         via = case.get("via", "api")
         try:
@@ -222,7 +267,8 @@ def csv_obs(case, obs):
         old_bytes = (npth.read_bytes(), epth.read_bytes())
         before = old_bytes
         spath2 = root / "g2.zarr" / "tracks.geff"
-        other = {**case, "node_props": [], "edge_props": []}
+        mark = lambda cnt: {"name": "zzmark", "dtype": "int64", "trail": [], "flat": list(range(cnt)), "missing": None}  # noqa: E731
+        other = {**case, "vlen_str": False, "node_props": [mark(len(case["node_ids"]))], "edge_props": [mark(len(case["edges"]))]}
         build_store(other, spath2, case.get("zarr_format", 2))
         fresh = root / "fresh.csv"
         scen = []
@@ -297,6 +343,8 @@ def csv_obs(case, obs):
                          "nodes": state(npth, old_bytes[0], new_bytes[0]), "edges": state(epth, old_bytes[1], new_bytes[1])})
         r["scenarios"] = scen
         r["overwrite"] = ow
+        r["stray_files"] = sorted(str(q.relative_to(root)) for q in root.rglob("*.csv")
+                                  if q not in (npth, epth, fn, fe))
     return r
 
 
@@ -422,8 +470,11 @@ def judge(case, obs, fail):
             ow = cv.get("overwrite", {})
             for k in ("api", "api-false", "cli", "edges-only"):
                 if ow.get(k) != "FileExistsError" or not ow.get(k + "-unchanged"):
-                    fail("C17:csv-replaced-without-request", f"existing csv, no overwrite requested ({k}): outcome {ow.get(k)}, "
+                    fail("C17:csv-clobbered-without-overwrite", f"existing csv, no overwrite requested ({k}): outcome {ow.get(k)}, "
                          f"files unchanged = {ow.get(k + '-unchanged')}", ow, "FileExistsError, files unchanged")
+            if cv.get("stray_files"):
+                fail("C17:csv-wrong-location", f"csv files written outside the requested output: {cv['stray_files']}",
+                     cv["stray_files"], [])
             if ow.get("replaced") is not True:
                 fail("C17:csv-overwrite", f"overwrite=True did not replace the csv files by the new export: {ow.get('replaced')}", ow, True)
     return "+".join(sorted(set(tags)))
@@ -548,6 +599,8 @@ def random_case(rng, collide=False):
         names = rng.sample(NAMES, k)
         c[f"{kind}_props"] = [gen_prop(rng, nm, cnt) for nm in names]
     c["zarr_format"] = rng.choice([2, 3])
+    if any(p["dtype"] == "str" for p in c["node_props"] + c["edge_props"]) and rng.random() < 0.6:
+        c["vlen_str"] = True
     if collide:
         kind = rng.choice(["node", "edge"])
         cnt = n if kind == "node" else e
@@ -588,6 +641,29 @@ def exhaustive_cases(rng, thorough):
     return cases
 
 
+def vlen_string_cases(rng, thorough):
+    """string properties stored as variable-length UTF8 strings (zarr v3 `string` / v2 vlen-utf8, what the
+    specification prescribes): N, E in {0,1,2,5} x rank 1..3 x both formats, on the node and on the edge axis —
+    row-less tables included (empty graph; edge table of a graph without edges)"""
+    cases = []
+    for cnt in (0, 1, 2, 5):
+        for trail in ([], [1], [3], [2, 2], [1, 3], [2, 1]):
+            for fmt in (2, 3):
+                for onnode in (True, False):
+                    mms = ("none", "some") if thorough else (rng.choice(["none", "some", "allfalse"]),)
+                    for mm in mms:
+                        g = gen_graph(rng, n=cnt if onnode else rng.choice([1, 2, 5]), e=None if onnode else cnt)
+                        k = len(g["node_ids"]) if onnode else len(g["edges"])
+                        ps = [gen_prop(rng, "tags", k, dt="str", trail=trail, missing_mode=mm),
+                              gen_prop(rng, "pos", k, dt="float32", trail=[3], missing_mode="none")]
+                        other = [gen_prop(rng, "label", len(g["edges"]) if onnode else len(g["node_ids"]), dt="str",
+                                          trail=rng.choice([[], [2], [2, 2]]), missing_mode="none")]
+                        g["node_props"], g["edge_props"] = (ps, other) if onnode else (other, ps)
+                        g["zarr_format"], g["vlen_str"] = fmt, True
+                        cases.append(g)
+    return cases
+
+
 def csv_comparable(case):
     """pandas' CSV text round trip is only expected to reproduce values for columns that are not
     re-typed by the parser: strings that are no NA token / number / bool, no mixed-sign 64-bit columns"""
@@ -612,16 +688,19 @@ def corpus():
 def run(ck: common.Check):
     ck.prove(["GeffProps.C17", "GeffProps.C17Links"])
     ck.rule = ("cases = corpus + one-property stores for every trailing shape over {1,2} up to rank 4 x N in {0,1,2,5} x "
-               "missing {none, all false, some} x {int64,float64,bool,str} (all in thorough, a seeded half in quick) + seeded "
-               "random stores (N,E in {0,1,2,5}, 0-3 node and 0-2 edge properties, rank 1-4 with dims in {0,1,2,3,4}, all "
+               "missing {none, all false, some} x {int64,float64,bool,str} (all in thorough, a seeded half in quick) + "
+               "string properties re-created as variable-length UTF8 strings with the raw zarr API (N,E in {0,1,2,5} x rank 1-3 x "
+               "v2/v3 x node/edge axis, row-less tables included) + seeded random stores (N,E in {0,1,2,5}, 0-3 node and 0-2 edge properties, rank 1-4 with dims in {0,1,2,3,4}, all "
                "integer widths/float32/float64/bool/str, masks none/all-false/some/all-true, zarr v2/v3, id dtypes) + a "
                "column-name-collision stream; a seeded subset goes through geff_to_csv/`geff convert-to-csv` on disk + "
-               "pandas.read_csv + the overwrite scenarios; non-trivial = at least one property on a non-empty axis; "
+               "pandas.read_csv + sequences of exports onto the same output (absolute, ~/… with $HOME redirected, relative; str/Path; "
+               "with/without suffix; both / one file pre-existing; overwrite); non-trivial = at least one property on a non-empty axis; "
                "distinct = distinct canonical JSON of the case")
     thorough = not ck.quick
     cases = list(corpus())
     ck.extra["corpus_cases"] = len(cases)
     cases += exhaustive_cases(ck.rng, thorough)
+    cases += vlen_string_cases(ck.rng, thorough)
     nrand, ncoll = (8000, 300) if thorough else (420, 36)
     for _ in range(nrand):
         cases.append(random_case(ck.rng))
@@ -632,7 +711,9 @@ def run(ck: common.Check):
         if "csv" not in c and ck.rng.random() < (0.12 if thorough else 0.16):
             c["csv"] = True
             c["via"] = ck.rng.choice(["api", "api", "cli"])
-            c["out_arg"] = ck.rng.choice(["out.csv", "out", "tables.tsv"])
+            c["out_arg"] = ck.rng.choice(["out.csv", "out", "tables.tsv", "tracks.v2.csv"])
+            c["out_form"] = ck.rng.choice(["abs", "tilde", "tilde", "rel"])
+            c["out_type"] = ck.rng.choice(["path", "str"])
         if c.get("csv"):
             c["csv_comparable"] = csv_comparable(c)
             ncsv += 1
